@@ -16,8 +16,10 @@ def key_of(clause, label, prog, tr, l):
     rec = tr[l - 1] if 0 < l <= len(tr) else {}
     if clause in ("retry_count_reset_for_running_invocation", "retry_budget_exceeded_across_resume"):
         return "obs:%s:in_progress_serialized_as_bare_event" % clause
-    if clause in ("result_differs", "state_store_differs") and rec.get("pending_retry"):
-        return "obs:%s:delayed_retry_pending_at_snapshot" % clause
+    if clause.endswith("_with_delayed_retry_pending"):
+        return "obs:%s:delayed_retry_pending_at_snapshot" % clause[:-len("_with_delayed_retry_pending")]
+    if clause.endswith("_with_running_recovery_history"):
+        return "obs:%s:in_progress_serialized_as_bare_event" % clause[:-len("_with_running_recovery_history")]
     return "obs:" + clause
 
 
